@@ -5,9 +5,9 @@ import (
 	"strconv"
 	"strings"
 
+	"github.com/iotaledger/iota.go/consts"
 	refcurl "github.com/iotaledger/iota.go/curl"
 	sponge "github.com/iotaledger/iota.go/signing/utils"
-	"github.com/iotaledger/iota.go/consts"
 	"github.com/iotaledger/iota.go/trinary"
 	"github.com/wollac/iota-crypto-demo/pkg/curl"
 )
